@@ -10,13 +10,18 @@ Keys are lower-case hex, the empty key is `-`; a pair is `<hexkey>:<value>`.
   nav <nodeID>                (firstLabelPos, nodeSize, lastLabelPos, prefix of a node)
   navpos <pos>                (hasChild, childNodeID | valuePos, isEndOfNode, suffix of a label)
   get <key> | lget <key> | iter | liter | riter | seek <key> | seeklb <key> | prefix <key>
+  siter | sriter | sseek <key> | sprefix <key>     (the iterator stack machine over the vectors)
   bv <bits> ...               bvbits | bvranklut | bvsellut | rank <i> | select <k> | dist <i>
   bucket <blockSize> | <pair> ... | <pair> ...
+  reload | bytes | msize      (byte layout model: marshal / unmarshal round trip, the bytes, MarshalSize)
+  blikepat <pattern>          (like dispatch of indexKVStore.FindValuesByLike)
   bget <key> | bvalues | bpairs | bsuggest <key> <limit> | blike <prefix> <pre|suf|has> <sub> | bmerge <blockSize>
 -/
 import LinVerif.Util.Proto
 import LinVerif.Model.Louds
+import LinVerif.Model.LoudsIter
 import LinVerif.Model.TrieBucket
+import LinVerif.Model.TrieWire
 import LinVerif.Generated.C20
 
 namespace LinVerif.Driver.C20
@@ -147,7 +152,15 @@ def step (st : St) (ws : List String) : St × String :=
       match build kvs with
       | some t => ({ st with tree := some t, flat := some (encode t) }, "ok")
       | none => ({ st with tree := none, flat := none }, "panic")
-  | ["reload"] => withTree st (fun _ => "ok")
+  | ["reload"] =>
+    -- Write -> UnmarshalBinary on the byte-layout model: the reloaded vectors are the written ones
+    withFlat st (fun f =>
+      let w := TrieWire.toWire f
+      let bytes := TrieWire.marshal w
+      if bytes.length != TrieWire.marshalSize w then "marshal-size-mismatch"
+      else if TrieWire.unmarshal bytes == some w then "ok" else "unmarshal-mismatch")
+  | ["bytes"] => withFlat st (fun f => showKey (TrieWire.marshal (TrieWire.toWire f)))
+  | ["msize"] => withFlat st (fun f => toString (TrieWire.marshalSize (TrieWire.toWire f)))
   | ["dims"] =>
     withFlat st (fun f => s!"height={f.height} keys={f.values.length} labels={f.labels.length} nodes={f.hasPrefix.length}")
   | ["levels"] =>
@@ -189,6 +202,20 @@ def step (st : St) (ws : List String) : St × String :=
   | ["iter"] => withTree st (fun t => showPairs (iter t))
   | ["liter"] => withFlat st (fun f => showPairs (loudsIter f))
   | ["riter"] => withTree st (fun t => showPairs (iter t).reverse)
+  | ["siter"] => withFlat st (fun f => showPairs (LoudsIter.iterAll f))
+  | ["sriter"] => withFlat st (fun f => showPairs (LoudsIter.riterAll f))
+  | ["sseek", k] =>
+    match parseKey k with
+    | none => (st, "bad-op")
+    | some key => withFlat st (fun f =>
+        let r := LoudsIter.seekFirst stepLB f key 3
+        match r.2 with
+        | [] => s!"fp={if r.1 then 1 else 0} invalid"
+        | l => s!"fp={if r.1 then 1 else 0} " ++ showPairs l)
+  | ["sprefix", k] =>
+    match parseKey k with
+    | none => (st, "bad-op")
+    | some key => withFlat st (fun f => showPairs (LoudsIter.prefixAll stepLB f key))
   | ["seek", k] =>
     match parseKey k with
     | none => (st, "bad-op")
@@ -262,6 +289,10 @@ def step (st : St) (ws : List String) : St × String :=
         withBucket st (fun ts =>
           showNats (sortNats (((bucketPrefix stepLB ts pre).filter (fun kv => (likeCheck mode kv.1 subKey).getD false)).map (·.2))))
     | _, _ => (st, "bad-op")
+  | ["blikepat", pat] =>
+    match parseKey pat with
+    | none => (st, "bad-op")
+    | some like => withBucket st (fun ts => showNats (sortNats (bucketLike eon stepLB ts like)))
   | ["bmerge", bsz] =>
     match bsz.toNat?, st.bucket with
     | none, _ => (st, "bad-op")
